@@ -124,6 +124,16 @@ Theorem C10_url_ok : forall hosts h path q c,
 Proof. exact assemble_url_ok. Qed.
 Print Assumptions C10_url_ok.
 
+(* the request target (what is written on the wire) carries the generated path byte for byte
+   whenever that path is a valid escaped path: a %2F of url_pattern stays %2F, ! ' ( ) * [ ]
+   of a parameter stay raw; nothing is decoded and re-encoded on the way *)
+Theorem C10_wire_exact : forall hosts h path q c pp sq f,
+  In h hosts -> nodup_keys q = true -> has_byte c_hash path = false ->
+  assemble h path q = Some c -> cut c_qm path = (pp, sq, f) -> valid_encoded MPath pp = true ->
+  exists f', cut c_qm (o_wire c) = (pp, o_rawquery c, f').
+Proof. exact wire_exact. Qed.
+Print Assumptions C10_wire_exact.
+
 (* the boolean oracle used on the implementation's observations is sound for the Prop *)
 Theorem C10_oracle_sound : forall hosts path q o,
   url_ok_b hosts path q o = true -> url_ok hosts path q o.
@@ -225,6 +235,12 @@ Proof. vm_compute. auto. Qed.
 
 Example C10_ex_clean_names : clean_names [Lit "a"; Par "p"; Lit "t"; Par "q"].
 Proof. exact clean_names_example. Qed.
+
+(* the request target keeps non-canonical but valid escapes and raw sub-delimiters *)
+Example C10_ex_wire_as_generated :
+  option_map o_wire (assemble "http://h" "/b/2024%2FQ1/it's(draft)!?s=1" []) =
+  Some "/b/2024%2FQ1/it's(draft)!?s=1".
+Proof. vm_compute. reflexivity. Qed.
 
 Example C10_ex_assemble :
   assemble "http://h" "/b/x y?s=1" [("k", ["a b"; "&=?#%"]); ("", [""])] =
